@@ -499,6 +499,13 @@ def fam_projections(seed=0, n=12, sizes=(4, 5, 6)):
         else:
             pairs = [(i, (i + 1) % na, 'u') for i in range(na)] + [(i, (i - 1) % na, 'w') for i in range(na)]
         edges = [EdgeSpec(f"a{i}/o1/x", f"a{j}/o1/{v}", fp()) for i, j, v in pairs]
+        if k % 3 == 2:
+            # plus a node that is the only one of its type and projects to every node of the group (scalar source)
+            ops['src'] = op_source(fp)
+            nodes['s0'] = NodeSpec(['src'], _node_overrides(fp, ops, ['src']))
+            other = 'w' if all(v == 'u' for _, _, v in pairs) else ('u' if all(v == 'w' for _, _, v in pairs) else None)
+            if other:
+                edges += [EdgeSpec('s0/src/s', f"a{j}/o1/{other}", fp()) for j in range(na)]
         out.append((f"FP:{seed}:{k}:{pat}:{na}",
                     ModelSpec('m', ops, nodes, edges, note=f"projection pattern {pat} over {na} identical nodes: "
                                                            f"{[(i, j) for i, j, _ in pairs]}")))
